@@ -288,3 +288,131 @@ def a_autofill(auto: bool, st_name: int, st_version: int, st_includes: int, st_l
             want = defaults[k]
         ok = ok and getattr(info, k) == want
     return R(ok and (written == [info]) == auto)
+
+
+# ---- kernel 4: include / library directories through the whole generated file -------------------
+from bfg9000.environment import Environment as _Environment
+from bfg9000.build_inputs import BuildInputs as _BuildInputs
+from bfg9000.builtins import builtin as _builtin, install as _binstall     # noqa: F401
+from bfg9000.path import Root as _Root, InstallRoot as _InstallRoot, abspath as _abspath
+
+WHICH = param('which', 'uninstalled')
+
+
+def _mkenv17():
+    # source and build directories with a blank: a fragment spelled ${srcdir}/x must be quoted
+    # although its own text needs no quoting
+    env = _Environment(_abspath('/bfgdir'), 'make', None, _abspath('/src dir'),
+                       _abspath('/build dir'))
+    env.finalize({_InstallRoot.prefix: _abspath('/usr/local')}, (True, False), True)
+    env.builder('c')
+    return env
+
+
+ENV17 = _mkenv17()
+PCDIR = '/build dir/pkgconfig'
+# known finding C17-F21: an install directory whose text is special for pkgconf inside a fragment
+KF_PCVAR = param('kf_pcvar', False)
+
+
+def _mkpath17(suffix, root, directory=False):
+    p = _Path.__new__(_Path)
+    p.suffix = suffix
+    p.root = root
+    p.directory = directory
+    p.destdir = False
+    return p
+
+
+def _dname_ok(s):
+    return len(s) > 0 and '/' not in s and chr(92) not in s and s != '.' and s != '..' and \
+        s[0] != '~' and s[1:2] != ':'
+
+
+class _Ctx17:
+    pass
+
+
+def _pc_data(hdr, lib):
+    return dict(name='pkg', desc_name='pkg', desc='d', url='u', version='1.0', requires=[],
+                requires_private=[], conflicts=[], includes=[hdr], libs=[lib], libs_private=[],
+                options=[], link_options=[], link_options_private=[], lang='c', extra_pkgs=[],
+                extra_pkgs_private=[])
+
+
+def i_text(s, which):
+    """the generated file and the flags it must deliver (pcdir -> (cflags argv, libs argv))"""
+    env = ENV17
+    ctx = _Ctx17()
+    ctx.env = env
+    ctx.build = _BuildInputs(env, _Path('build.bfg', _Root.srcdir))
+    w = PkgConfigWriter(ctx)
+    out = StringIO()
+    if which == 'uninstalled':
+        hdr = _ft.HeaderDirectory(_mkpath17('inc/' + s, _Root.srcdir, True))
+        lib = _ft.StaticLibrary(_mkpath17('sub/' + s + '/libfoo.a', _Root.builddir), 'elf', 'c')
+        w._write(out, _pc_data(hdr, lib), False)
+
+        def want(pcdir):
+            return ['prog', '-I/src dir/inc/' + s], ['prog', '-L' + pcdir + '/../sub/' + s, '-lfoo']
+    else:
+        hdr = _ft.HeaderDirectory(_mkpath17('inc', _Root.srcdir, True))
+        lib = _ft.StaticLibrary(_mkpath17('libfoo.a', _Root.builddir), 'elf', 'c')
+        old = dict(env.install_dirs)
+        pre = _mkpath17('/opt/' + s, _Root.absolute, True)
+        env.install_dirs = dict(old)
+        env.install_dirs[_InstallRoot.prefix] = pre
+        try:
+            ctx.build['install'].add(hdr)
+            ctx.build['install'].add(lib)
+            w._write(out, _pc_data(hdr, lib), True)
+        finally:
+            env.install_dirs = old
+
+        def want(pcdir):
+            return ['prog', '-I/opt/' + s + '/include'], ['prog', '-L/opt/' + s + '/lib', '-lfoo']
+    return out.getvalue(), want
+
+
+IPART = param('part', -1)
+_SPECIAL17 = ' \t#%{}[]*?;&|<>!~=:,@+^`' + chr(34) + chr(39)
+
+
+def _ipart(s):
+    """partition of the first character (the union of the four classes is everything)"""
+    if IPART < 0 or s == '':
+        return True
+    c = s[0]
+    alnum = ('a' <= c <= 'z') or ('A' <= c <= 'Z') or ('0' <= c <= '9')
+    special = c in _SPECIAL17
+    if IPART == 0:
+        return alnum
+    if IPART == 1:
+        return special
+    if IPART == 2:
+        return (not alnum) and (not special) and ord(c) < 128
+    return ord(c) >= 128
+
+
+def _pcvar_special(s):
+    return chr(39) in s or chr(34) in s or (s != '' and s[-1] in rpc.WS)
+
+
+def i_paths(s: str) -> bool:
+    """the real PkgConfigWriter._write with an include directory / library directory (uninstalled
+    variant) or an install prefix (installed variant) containing the component <s>: the whole
+    file read by pkgconf (rpc.pcfile: variables with definition-time expansion, ${pcfiledir},
+    directory fragments) and the printed flags parsed by the consumer's sh give exactly
+    -I<declared directory>, -L<library directory> -lfoo
+    pre: len(s) == NQ and no_ctl(s) and _dname_ok(s) and _in_scope(s)
+    pre: not (KF_PCVAR and WHICH == 'installed' and _pcvar_special(s))
+    pre: _ipart(s)
+    post: _
+    """
+    text, want = i_text(s, WHICH)
+    want_c, want_l = want(PCDIR)
+    c = rpc.flags(text, PCDIR, 'Cflags')
+    l = rpc.flags(text, PCDIR, 'Libs')
+    if c is None or l is None:
+        return R(False)
+    return R(rsh.argv('prog ' + c) == want_c and rsh.argv('prog ' + l) == want_l)
